@@ -1,6 +1,7 @@
 package main
 
 import (
+	"fmt"
 	"os"
 	"strings"
 )
@@ -25,6 +26,94 @@ func c03Sig(key string) string {
 	return fam
 }
 
+// c03Counters: the id counters rebuilt at start-up answer like the ones they replace.  Each kind of allocation
+// (repo, data instance, version) is in turn the last one before a restart; the counters of the restarted process
+// must not be lower than those of the process it replaces, and the next allocation must not take over an
+// existing repo, instance or version.
+func c03Counters(c *Ctx) {
+	counters := func(ch *Child) (map[string]int, string) {
+		dump, _ := ch.Ask("DUMP")
+		for _, ln := range strings.Split(dump, "|") {
+			var v, rp, in int
+			if n, _ := fmt.Sscanf(ln, "counters version=%d repo=%d instance=%d", &v, &rp, &in); n == 3 {
+				return map[string]int{"version": v, "repo": rp, "instance": in}, ln
+			}
+		}
+		return nil, ""
+	}
+	for _, last := range []string{"repo", "instance", "version"} {
+		for _, how := range []string{"SHUTDOWN", "EXIT"} {
+			func() {
+				dir := scratchDir("c03c")
+				defer os.RemoveAll(dir)
+				ch, msg := StartChild(dir, nil)
+				if ch == nil {
+					c.Report("H", "C03 child-start", msg, "")
+					return
+				}
+				defer func() { ch.Kill() }()
+				hist := []string{}
+				mk := func(alias string) string {
+					resp, _ := ch.HTTP("POST", "repos", []byte(`{"alias":"`+alias+`","description":"d"}`))
+					hist = append(hist, "POST repos "+alias+" -> "+resp.String())
+					return jsonField(resp.Body, "root")
+				}
+				a := mk("a")
+				ch.HTTP("POST", "repo/"+a+"/instance", []byte(`{"typename":"keyvalue","dataname":"kv"}`))
+				ch.HTTP("POST", "node/"+a+"/kv/key/k", []byte("value of a"))
+				var b string
+				switch last {
+				case "repo":
+					b = mk("b")
+				case "instance":
+					ch.HTTP("POST", "repo/"+a+"/instance", []byte(`{"typename":"keyvalue","dataname":"kv2"}`))
+					hist = append(hist, "new instance kv2")
+				case "version":
+					ch.HTTP("POST", "node/"+a+"/commit", []byte(`{"note":"c"}`))
+					resp, _ := ch.HTTP("POST", "node/"+a+"/newversion", []byte(`{"note":"n"}`))
+					hist = append(hist, "commit + newversion -> "+resp.String())
+				}
+				before, bl := counters(ch)
+				ch.Stop(how)
+				ch2, msg := StartChild(dir, nil)
+				if ch2 == nil {
+					c.Report("O", "C03 no-restart", "the server does not start again on its own stores", msg)
+					return
+				}
+				ch = ch2
+				hist = append(hist, "restart ("+how+")")
+				after, al := counters(ch)
+				c.Eval("counters "+last+" "+how, true)
+				c.Count("counters." + last)
+				for k, v := range before {
+					if after[k] < v {
+						c.Report("O", "C03 id-counter-lower-after-restart "+k, "an id counter rebuilt at start-up is lower than the one it replaces (ids would be issued twice)",
+							fmt.Sprintf("before: %s\nafter:  %s\nhistory:\n  %s", bl, al, strings.Join(hist, "\n  ")))
+						return
+					}
+				}
+				// the next allocations must not take over what exists
+				n := mk("n")
+				for _, u := range []string{a, b, n} {
+					if u == "" {
+						continue
+					}
+					if resp, _ := ch.HTTP("GET", "repo/"+u+"/info", nil); !resp.OK() {
+						c.Report("O", "C03 repo-lost-after-restart", "a repo that existed before the restart is gone once a new repo is created after it",
+							fmt.Sprintf("GET repo/%s/info -> %s\nhistory:\n  %s", u, resp, strings.Join(hist, "\n  ")))
+						return
+					}
+				}
+				ch.HTTP("POST", "repo/"+n+"/instance", []byte(`{"typename":"keyvalue","dataname":"fresh"}`))
+				if kr, _ := ch.HTTP("GET", "node/"+n+"/fresh/keys", nil); kr.OK() && strings.TrimSpace(string(kr.Body)) != "[]" {
+					c.Report("O", "C03 instance-id-reused-after-restart", "a data instance created after the restart holds another instance's data",
+						fmt.Sprintf("GET fresh/keys -> %s\nhistory:\n  %s", kr, strings.Join(hist, "\n  ")))
+				}
+			}()
+		}
+	}
+}
+
 func runC03(c *Ctx) {
 	c.Rule = "generated histories across key-value, labelmap (ingest, merge, cleave, split-supervoxel), annotation (post, delete, move; synced to the labelmap) and neuronjson instances with commits, new versions and branches, on a real server process; at random points between operations the process is stopped idle — cleanly or by abrupt exit — and started again on the same stores, several times per history; every read endpoint at every version must answer byte-identically before and after. non-trivial = the history contains at least one restart after a labelmap/annotation/neuronjson mutation; distinct by history"
 	nh, steps := 3, 30
@@ -32,6 +121,7 @@ func runC03(c *Ctx) {
 		nh, steps = 25, 45
 	}
 	c03Directed(c)
+	c03Counters(c)
 	for h := 0; h < nh; h++ {
 		r := c.Rng.Fork()
 		dir := scratchDir("c03")
